@@ -26,7 +26,7 @@ def histories(tier):
             out.append((dict(rf.Cfg(n=n, d=d, fc=fc, sc=sc, start=k0, **U.MODES[mode])), ops, "%s %s %s" % (mode, lname, label)))
     # files of 26-27 samples: after a fault at a rollover several further calls stay inside one file
     n, d, fc, sc = 200, 3, 400, 2
-    k0 = rf.first_sample_of_ms(1394368230000 // 2000 * 2000, n, d) + 20
+    k0 = rf.first_sample_of_ms(1394333998000 // 2000 * 2000, n, d) + 20
     big = [("open", {}), ("wb", [0, 3], [0, 2], 4), ("wb", [5, 12], [0, 3], 6), ("wb", [16, 19], [0, 2], 3), ("w", 22, 2),
            ("wb", [25, 29], [0, 1], 3), ("close",)]
     for mode in modes:
@@ -34,7 +34,7 @@ def histories(tier):
     # data files larger than HDF5's 64 KiB sieve buffer: the library performs file I/O inside the write
     # call itself (allocation + fill of a continuous file, chunk eviction), not only when the file is closed
     n, d, fc, sc = 100000, 1, 400, 2
-    k0 = rf.first_sample_of_ms(1394368230000 // 2000 * 2000, n, d) + 5000
+    k0 = rf.first_sample_of_ms(1394333998000 // 2000 * 2000, n, d) + 5000
     large = [("open", {}), ("w", 0, 30000), ("w", 30000, 30000), ("w", 70000, 20000), ("w", 95000, 1000), ("close",)]
     for mode in ("cont", "gapped"):
         out.append((dict(rf.Cfg(n=n, d=d, fc=fc, sc=sc, start=k0, **U.MODES[mode])), large, "%s large_files_io_inside_write" % mode))
